@@ -38,7 +38,7 @@ run_demo() {
   cd $ORIG/demo
   if ls *.sh >/dev/null 2>&1; then
     S=$(ls demo.sh run.sh run_demo.sh run_e2e.sh run_cli.sh 2>/dev/null | head -1)
-    SRC=$WT timeout 600 sh ./$S $WT >>$LOG 2>&1
+    SRC=$WT timeout 600 bash ./$S $WT >>$LOG 2>&1
     return $?
   fi
   # Go test only: copy the test file next to the package named in RUN.md
